@@ -1,0 +1,91 @@
+/*
+ * Copyright (c) Meta Platforms, Inc. and affiliates.
+ *
+ * This source code is licensed under the MIT license found in the
+ * LICENSE file in the root directory of this source tree.
+ */
+
+// Verification hooks.  Everything in this file compiles to nothing unless DISPENSO_VERIF is
+// defined.  With the define, DISPENSO_VERIF_POINT(site) calls an externally supplied function at
+// points where a pre-emptive scheduler could deschedule the thread anyway; the supplier may delay
+// the calling thread there (it must not touch dispenso state).
+
+#pragma once
+
+#if defined(DISPENSO_VERIF)
+
+extern "C" void dispenso_verif_point(int site);
+
+#define DISPENSO_VERIF_POINT(site) ::dispenso_verif_point(static_cast<int>(site))
+
+namespace dispenso {
+namespace verif {
+enum Site : int {
+  kNone = 0,
+  // thread_pool.h
+  kPoolForceEnqueueAfterSizeTest = 1,
+  kPoolPlacedAfterClaim = 2,
+  kPoolPlacedAfterPush = 3,
+  kPoolFindBeforeHintClear = 4,
+  kPoolBulkRingsAfterCount = 5,
+  kPoolBulkRingsBetweenPush = 6,
+  kPoolSchedAfterEnqueue = 7,
+  // thread_pool.cpp
+  kPoolWorkerBeforeEnterSleep = 8,
+  kPoolWorkerAfterEnterSleep = 9,
+  kPoolWorkerBeforeWait = 10,
+  kPoolResizeAfterStop = 11,
+  kPoolResizeAfterJoin = 12,
+  kPoolResizeAfterRingCount = 13,
+  kPoolDtorAfterStop = 14,
+  // task_set_impl.h
+  kTaskSetBulkAfterRingTest = 15,
+  kTaskSetWrapperAfterBody = 16,
+  // future_impl.h
+  kFutureRunAfterCas = 17,
+  kFutureRunAfterNotify = 18,
+  kFutureThenAfterReadyTest = 19,
+  kFutureThenAfterPush = 20,
+  kFutureDecRefBeforeDestroy = 21,
+  // pipeline_impl.h
+  kPipeAfterEnqueue = 22,
+  kPipeCompletionAfterFailedDequeue = 23,
+  // timed_task_impl.h / timed_task.cpp
+  kTimedAfterCancelTest = 24,
+  // completion_event_impl.h
+  kEventBeforeFutexWait = 25,
+  // rw_lock_impl.h
+  kRwTryLockAfterFetchOr = 26,
+  kRwSharedAfterFetchAdd = 27,
+  kRwLockAfterWriteBit = 28,
+  // mpmc / spsc / chase-lev
+  kMpmcPushAfterClaim = 29,
+  kMpmcPopAfterClaim = 30,
+  kSpscPushBeforePublish = 31,
+  kSpscPopBeforePublish = 32,
+  kChaseLevPopBeforeCas = 33,
+  kChaseLevStealBeforeCas = 34,
+  // concurrent_vector / arena
+  kCVecAllocBeforeStore = 35,
+  kArenaAfterCapacityTest = 36,
+  // small buffer allocator
+  kSbaAfterBackingLock = 37,
+  // async_request.h
+  kAsyncGetAfterStateLoad = 38,
+  kAsyncEmplaceAfterCas = 39,
+  // par_for_stripe.h
+  kStripeAfterClaim = 40,
+  // resource_pool.h
+  kResPoolAfterAcquire = 41,
+  // distributed rw lock
+  kDrwTryLockBetweenSlots = 42,
+  kNumSites = 48
+};
+} // namespace verif
+} // namespace dispenso
+
+#else
+
+#define DISPENSO_VERIF_POINT(site) ((void)0)
+
+#endif // DISPENSO_VERIF
